@@ -11,7 +11,7 @@ open HTree
 /-- The forest between two steps of the replay: old roots `R`, then the work tree, focus `c`. -/
 structure Cloning (g : Forest) (R : List HTree) (fs : List CFrame) (c : Nat) (vc : Value)
     (K : List HTree) : Prop where
-  roots : g.roots = R ++ [plug fs (.node c vc K)]
+  roots : g.roots = R ++ [fcPlug fs (.node c vc K)]
   nodup : (handlesList R ++ (frameHandles fs ++ c :: handlesList K)).Nodup
   below : ∀ h ∈ handlesList R ++ (frameHandles fs ++ c :: handlesList K), h < g.next
 
@@ -69,8 +69,8 @@ theorem work (cl : Cloning g R fs c vc K) (v : Value) :
 /-- After `new_node` + `any_append`. -/
 theorem afterStep (cl : Cloning g R fs c vc K) (v : Value) (K1 : List HTree)
     (hK : handlesList K1 = handlesList K ++ [g.next] ∨ handlesList K1 = handlesList K) :
-    Cloning ((g.newNode v).1.withRoots (R ++ [plug fs (.node c vc K1)])) R fs c vc K1 := by
-  have hn : ((g.newNode v).1.withRoots (R ++ [plug fs (.node c vc K1)])).next = g.next + 1 := rfl
+    Cloning ((g.newNode v).1.withRoots (R ++ [fcPlug fs (.node c vc K1)])) R fs c vc K1 := by
+  have hn : ((g.newNode v).1.withRoots (R ++ [fcPlug fs (.node c vc K1)])).next = g.next + 1 := rfl
   refine ⟨rfl, ?_, ?_⟩
   · rcases hK with e | e
     · rw [e]
@@ -102,7 +102,7 @@ theorem descend {n : Nat} {v : Value} {K2 : List HTree} (cl : Cloning g R fs c v
     Cloning g R (fs ++ [⟨c, vc, K⟩]) n v K2 := by
   have e := focus_handles_eq fs c vc K n v K2
   refine ⟨?_, ?_, ?_⟩
-  · rw [cl.roots, plug_append]
+  · rw [cl.roots, fcPlug_append]
   · rw [e]; exact cl.nodup
   · rw [e]; exact cl.below
 
@@ -110,7 +110,7 @@ theorem ascend {n : Nat} {v : Value} {K2 : List HTree} (cl : Cloning g R (fs ++ 
     Cloning g R fs c vc (K ++ [.node n v K2]) := by
   have e := focus_handles_eq fs c vc K n v K2
   refine ⟨?_, ?_, ?_⟩
-  · rw [cl.roots, plug_append]
+  · rw [cl.roots, fcPlug_append]
   · rw [← e]; exact cl.nodup
   · rw [← e]; exact cl.below
 
@@ -200,7 +200,7 @@ mutual
     | [], g, R, fs, c, vc, K, cl, _, _ =>
       ⟨g, by simp [Forest.cloneKids], by simpa [copyKids] using cl, by simp [copyKids], SameFlags.refl g⟩
     | k :: ks, g, R, fs, c, vc, K, cl, hv, pend => by
-      obtain ⟨hvk, hvks⟩ := validList_cons b k ks hv
+      obtain ⟨hvk, hvks⟩ := fc_validList_cons b k ks hv
       obtain ⟨g1, h1, cl1, hn1, hf1⟩ := cloneInto_spec b k g R fs c vc K cl hvk pend.admissible
       have pend1 : Pending vc (copyInto g.consolidation K g.next k).1 ks := by
         cases k with
